@@ -345,6 +345,13 @@ def rule_routing(ctx: Ctx) -> None:
             passes_key = bool(kept) and key_attr is not None and any(
                 N.canon(N.through_properties(ctx.repo, kal, N.expand(kal, a))) == key_attr
                 for c in A.func_calls(kal) if (A.call_name(c) or "").endswith(".keep_alive_listen_key") for a in c.args)
+            # a (re)subscription always gets a fresh key: after `listenKeyExpired` the old one is dead, re-sending it subscribes nothing
+            gk_ = ctx.cfg(fn)
+            kstores = [s_ for s_ in A.stores(fn) if A.dotted(s_.target) == key_attr]
+            fresh = bool(kstores) and gk_.always_followed_by(gk_.entry, lambda n, ks=kstores: any(n in gk_.nodes_for(s_.stmt) for s_ in ks), labels=C.NO_EXC) is None
+            ctx.check(fresh, "C18.4", f"{cls.rsplit('.', 1)[-1]}.resolve_stream_name obtains a new listen key every time", fn, kstores[0].stmt if kstores else fn.node,
+                      "create_listen_key on every path", "the listen key is only created when none is cached: after the key expires the channel re-subscribes with "
+                      "the dead key (and keeps refreshing it), so it never receives events again", key_text=f"fresh key {cls}")
             nonnull = not any(isinstance(r, ast.Return) and (r.value is None or A.const_value(r.value) is None
                                                              and isinstance(r.value, ast.Constant))
                               for r in C.walk_shallow(kap.node))
